@@ -36,6 +36,7 @@ type Failure struct {
 	Env      []string         `json:"env"`
 	DefNames []string         `json:"def_names"` // schema names of the defs, by index (for -replay)
 	Op       string           `json:"op"`
+	OpGz     string           `json:"op_gz,omitempty"` // base64(gzip(op)) when the operation is too long to keep verbatim
 	Expected string           `json:"expected"`
 	Observed string           `json:"observed"`
 	Model    string           `json:"model"`
